@@ -283,3 +283,10 @@ Theorem C03_MBE_pop_is_list_machine_pop : forall (ic : N) (sr : bool) (s : st) (
   TEB.TEBModel.fifo_step ev (Backend.BETeb.fifo_of ic sr (th s u)) TEB.TEBModel.OPop.
 Proof. exact Backend.BETeb.pop_event_is_OPop. Qed.
 Print Assumptions C03_MBE_pop_is_list_machine_pop.
+
+(* the refinement for the variant of M-TEB the translator reads from the source on this run *)
+Theorem C03_transit_buffer_refines_fifo_src : forall (A : Type) (dflt : A) (c0 : N) (ops : list (TEB.TEBModel.top A)),
+  TEB.TEBModel.teb_run A dflt Quill.TieTEB.src_tcfg (TEB.TEBModel.teb_init A dflt c0) ops =
+  TEB.TEBModel.fifo_run A (TEB.TEBModel.fifo_init A c0) ops.
+Proof. exact Quill.TieTEB.teb_refines_fifo_src. Qed.
+Print Assumptions C03_transit_buffer_refines_fifo_src.
